@@ -769,7 +769,7 @@ Section Oracle.
     - destruct (Nat.eq_dec (length (al_items a)) (length li)) as [E|NE].
       + destruct H as [[_ H] | [HM HB]]; [contradiction|]. right. apply slg_missing_error; [right; exact E | exact HM | exact HB].
       + left. apply slg_length_error; assumption.
-    - destruct H as [[H _] | [HM HB]]; [discriminate|]. right. apply slg_missing_error; [left; reflexivity | exact HM | exact HB].
+    - destruct H as [[H _] | [HM HB]]; [congruence|]. right. apply slg_missing_error; [left; exact EL | exact HM | exact HB].
   Qed.
 
   (* ------------------------------------------------------------------------------------------
@@ -816,7 +816,7 @@ Section Oracle.
   Proof.
     intros c r. unfold with_wrong_msg. destruct (is_empty (sr_msg r)) eqn:E1; [|left; reflexivity].
     destruct (Qeq_bool (sr_grade r) 0) eqn:E2; [|left; reflexivity]. right. qbool.
-    destruct (sr_msg r); [|discriminate]. repeat split; [exact E2 | reflexivity].
+    destruct (sr_msg r); [|discriminate]. split; [reflexivity | split; [exact E2 | reflexivity]].
   Qed.
 
   (* the result of check is the result of one alternative list (wrong_msg aside), and no alternative scores higher *)
@@ -832,9 +832,216 @@ Section Oracle.
     destruct (select rs) as [r1|] eqn:S; [|discriminate]. inversion H; subst r. clear H.
     destruct (select_spec rs r1 S) as [Hin Hmax]. pose proof (mapM_Forall2 _ _ _ M) as F.
     destruct (with_wrong_msg_grade c r1) as [G1 G2]. split.
-    - destruct (Forall2_in_r _ _ _ _ F r1 Hin) as (a & Ha & Ea).
+    - destruct (Forall2_in_r _ _ _ F r1 Hin) as (a & Ha & Ea).
       exists a, r1. split; [exact Ha | split; [exact Ea | split; [exact G1 | split; [exact G2 | apply with_wrong_msg_msg]]]].
-    - intros a' Ha'. destruct (Forall2_in_l _ _ _ _ F a' Ha') as (r' & Hr' & Ea').
+    - intros a' Ha'. destruct (Forall2_in_l _ _ _ F a' Ha') as (r' & Hr' & Ea').
       exists r'. split; [exact Ea' | rewrite G1; apply Hmax; exact Hr'].
   Qed.
 End Oracle.
+
+Arguments unit_on {A}. Arguments formula {A}. Arguments best_total {A}. Arguments used_pairs_pass {A}.
+Arguments passes {A}. Arguments passes_at {A}. Arguments credit_at {A}. Arguments pos_total {A}. Arguments g {A}.
+Arguments input_error {A}.
+
+(* ------------------------------------------------------------------------------------------------
+   the whole check: every alternative list of every answer, through the string
+   ------------------------------------------------------------------------------------------------ *)
+Section Whole.
+  Variable A : Type.
+  Variable cr : A -> str -> res sres.
+  Variable solve : list (list Q) -> option (list (nat * nat)).
+  Hypothesis Hsolve : solver_optimal solve.
+
+  (* a configuration the schema accepts: no empty list of expected items, credits in [0,1] *)
+  Definition valid_alt (a : alt A) : Prop := al_items a <> [] /\ unit_on cr (al_items a) /\ 0 <= al_credit a <= 1.
+  Definition valid_answers (answers : list (answer A)) : Prop := Forall valid_alt (all_alts answers).
+
+  Definition items_of (c : cfg) (s : str) : list str := split (c_delim c) s.
+
+  (* C07, whole statement for the grade: the reported grade is given by the formula for one of the alternative
+     lists, no alternative list's formula value exceeds it, and it lies in [0,1] *)
+  Theorem slg_check_formula : forall c answers s r, valid_answers answers -> check cr solve c answers s = inl r ->
+    (exists a, In a (all_alts answers) /\ formula cr c a (items_of c s) (sr_grade r)) /\
+    (forall a q, In a (all_alts answers) -> formula cr c a (items_of c s) q -> q <= sr_grade r) /\
+    0 <= sr_grade r <= 1.
+  Proof.
+    intros c answers s r V H. destruct (slg_check_best A cr solve c answers s r H) as ((a & r0 & Ha & E0 & G & _) & Hmax).
+    unfold valid_answers in V. rewrite Forall_forall in V.
+    destruct (V a Ha) as (N & U & Cu). unfold check_response in E0.
+    split; [|split].
+    - exists a. split; [exact Ha|]. rewrite G. apply (slg_grade_formula A cr solve Hsolve c a _ r0 U N E0).
+    - intros a' q Ha' F. destruct (Hmax a' Ha') as (r' & E' & L). destruct (V a' Ha') as (N' & U' & _).
+      unfold check_response in E'.
+      pose proof (slg_grade_formula A cr solve Hsolve c a' _ r' U' N' E') as F'.
+      rewrite (formula_unique A cr c a' _ q (sr_grade r') F F'). exact L.
+    - rewrite G. apply (slg_grade_in_unit_interval A cr solve Hsolve c a _ r0 U N Cu E0).
+  Qed.
+
+  (* the message part, through check: all_awarded of the reported result is that of the chosen alternative *)
+  Theorem slg_check_msg_rule : forall c answers s r, valid_answers answers -> check cr solve c answers s = inl r ->
+    sr_all r = true ->
+    exists a, In a (all_alts answers) /\ length (items_of c s) = length (al_items a) /\
+              used_pairs_pass cr c (al_items a) (items_of c s) (earned_test c).
+  Proof.
+    intros c answers s r V H K. destruct (slg_check_best A cr solve c answers s r H) as ((a & r0 & Ha & E0 & _ & G2 & _) & _).
+    unfold valid_answers in V. rewrite Forall_forall in V. destruct (V a Ha) as (N & U & _). unfold check_response in E0.
+    destruct (slg_msg_rule A cr solve Hsolve c a _ r0 U N E0) as (rs & _ & _ & _ & Q).
+    exists a. split; [exact Ha|]. apply Q. congruence.
+  Qed.
+
+  (* errors through check: the first alternative list decides (all lists of a configuration have the same length) *)
+  Theorem slg_check_input_error : forall c answers s a rest, all_alts answers = a :: rest -> input_error c a (items_of c s) ->
+    check cr solve c answers s = inr (ErrLength (length (al_items a)) (length (items_of c s))) \/
+    check cr solve c answers s = inr (ErrMissing (blank_positions (items_of c s))).
+  Proof.
+    intros c answers s a rest E H. unfold check. destruct answers as [|a0 t]; [discriminate|]. rewrite E. simpl mapM.
+    change (check_response cr solve c a s) with (check_items cr solve c a (items_of c s)).
+    destruct (input_error_raises A cr solve c a (items_of c s) H) as [K|K]; rewrite K; [left | right]; reflexivity.
+  Qed.
+End Whole.
+
+Arguments valid_alt {A}. Arguments valid_answers {A}. 
+
+(* ------------------------------------------------------------------------------------------------
+   one level of nesting: the outer subgrader is the inner SingleListGrader's check
+   ------------------------------------------------------------------------------------------------ *)
+Section Nested.
+  Variable A : Type.
+  Variable cr : A -> str -> res sres.
+  Variable solve : list (list Q) -> option (list (nat * nat)).
+  Hypothesis Hsolve : solver_optimal solve.
+  Variables co ci : cfg.
+
+  Definition inner_cr : inner_answers A -> str -> res sres := fun ia it => check cr solve ci ia it.
+
+  (* every inner configuration is valid *)
+  Definition valid_nested (answers : list (answer (inner_answers A))) : Prop :=
+    Forall (fun a => al_items a <> [] /\ 0 <= al_credit a <= 1 /\ Forall (valid_answers cr) (al_items a)) (all_alts answers).
+
+  Lemma inner_unit : forall la, Forall (valid_answers cr) la -> unit_on inner_cr la.
+  Proof.
+    intros la V ia it r Hin H. rewrite Forall_forall in V. unfold inner_cr in H.
+    apply (slg_check_formula A cr solve Hsolve ci ia it r (V ia Hin) H).
+  Qed.
+
+  Lemma valid_nested_valid : forall answers, valid_nested answers -> valid_answers inner_cr answers.
+  Proof.
+    intros answers V. unfold valid_nested in V. unfold valid_answers. eapply Forall_impl; [|exact V].
+    intros a (N & C & F). split; [exact N | split; [apply inner_unit; exact F | exact C]].
+  Qed.
+
+  (* the formula at the outer level, with the inner grader's grades as item credits *)
+  Theorem slg_nested_formula : forall answers s r, valid_nested answers -> nested_check cr solve co ci answers s = inl r ->
+    (exists a, In a (all_alts answers) /\ formula inner_cr co a (items_of co s) (sr_grade r)) /\
+    (forall a q, In a (all_alts answers) -> formula inner_cr co a (items_of co s) q -> q <= sr_grade r) /\
+    0 <= sr_grade r <= 1.
+  Proof.
+    intros answers s r V H. unfold nested_check in H.
+    apply (slg_check_formula (inner_answers A) inner_cr solve Hsolve co answers s r (valid_nested_valid answers V) H).
+  Qed.
+
+  (* an inner result with all_awarded comes from an inner list with as many items as submitted, each of which earned credit *)
+  Lemma inner_all_awarded : forall ia it r, c_nested ci = false -> valid_answers cr ia -> inner_cr ia it = inl r -> sr_all r = true ->
+    exists a, In a (all_alts ia) /\ length (items_of ci it) = length (al_items a) /\
+              used_pairs_pass cr ci (al_items a) (items_of ci it) (fun x => Qltb 0 (sr_grade x)).
+  Proof.
+    intros ia it r Hn V H K. unfold inner_cr in H.
+    destruct (slg_check_msg_rule A cr solve Hsolve ci ia it r V H K) as (a & Ha & L & UP).
+    exists a. split; [exact Ha | split; [exact L|]]. unfold earned_test in UP. rewrite Hn in UP. exact UP.
+  Qed.
+
+  (* C07, message rule with nesting: the outer answer-level message requires equal counts at the outer level and
+     all_awarded from every inner list that was used *)
+  Theorem slg_nested_msg_rule : forall answers s r, c_nested co = true -> valid_nested answers ->
+    nested_check cr solve co ci answers s = inl r -> sr_all r = true ->
+    exists a, In a (all_alts answers) /\ length (items_of co s) = length (al_items a) /\
+              used_pairs_pass inner_cr co (al_items a) (items_of co s) sr_all.
+  Proof.
+    intros answers s r Hn V H K. unfold nested_check in H.
+    destruct (slg_check_msg_rule (inner_answers A) inner_cr solve Hsolve co answers s r (valid_nested_valid answers V) H K)
+      as (a & Ha & L & UP).
+    exists a. split; [exact Ha | split; [exact L|]]. unfold earned_test in UP. rewrite Hn in UP. exact UP.
+  Qed.
+End Nested.
+
+(* ------------------------------------------------------------------------------------------------
+   through the string: permutation invariance for a one-character delimiter
+   ------------------------------------------------------------------------------------------------ *)
+Theorem slg_perm_invariant_string : forall A (cr : A -> str -> res sres) solve, solver_optimal solve ->
+  forall c a d items items' r r', c_delim c = [d] -> items <> [] -> Forall (fun it => ~ In d it) items ->
+    unit_on cr (al_items a) -> al_items a <> [] -> c_ordered c = false -> Permutation items items' ->
+    check_response cr solve c a (join [d] items) = inl r -> check_response cr solve c a (join [d] items') = inl r' ->
+    sr_grade r == sr_grade r'.
+Proof.
+  intros A cr solve Hs c a d items items' r r' Hd Hne Hno U Ha Ho HP H H'.
+  unfold check_response in H, H'. rewrite Hd in H, H'.
+  assert (Hne' : items' <> []) by (intro E; subst items'; apply Permutation_sym, Permutation_nil in HP; congruence).
+  assert (Hno' : Forall (fun it => ~ In d it) items') by (eapply Permutation_Forall; eassumption).
+  rewrite split_join_single in H by assumption. rewrite split_join_single in H' by assumption.
+  apply (slg_perm_invariant A cr solve Hs c a items items' r r' U Ha Ho HP H H').
+Qed.
+
+(* the wrong-count error speaks about the number of pieces of the split *)
+Theorem slg_length_error_string : forall A (cr : A -> str -> res sres) solve c (a : alt A) s,
+  c_length_error c = true -> length (al_items a) <> length (split (c_delim c) s) ->
+  check_response cr solve c a s = inr (ErrLength (length (al_items a)) (length (split (c_delim c) s))).
+Proof. intros. unfold check_response. apply slg_length_error; assumption. Qed.
+
+(* ------------------------------------------------------------------------------------------------
+   the executable model (solver = Munkres.computeZ on integer-scaled costs): optimality is C06's theorem,
+   and the model returns a grade whenever n * D stays below sys.maxsize, D a common denominator of the credits
+   ------------------------------------------------------------------------------------------------ *)
+Section Returns.
+  Variable A : Type.
+  Variable cr : A -> str -> res sres.
+
+  Lemma matrix_entries_from : forall pa ps mat row r, result_matrix cr pa ps = inl mat -> In row mat -> In r row ->
+    exists oa oi, In oa pa /\ In oi ps /\ checker cr oa oi = inl r.
+  Proof.
+    intros pa ps mat row r H Hrow Hr. pose proof (matrix_rows A cr pa ps mat H) as F.
+    destruct (Forall2_in_r _ _ _ F row Hrow) as (oi & Hoi & Erow). apply mapM_Forall2 in Erow.
+    destruct (Forall2_in_r _ _ _ Erow r Hr) as (oa & Hoa & E). exists oa, oi. auto.
+  Qed.
+
+  Lemma in_pad : forall {T} n (l : list T) o, In o (pad n l) -> o = None \/ exists x, o = Some x /\ In x l.
+  Proof.
+    intros T n l o H. unfold pad in H. apply in_app_or in H. destruct H as [H|H].
+    - apply in_map_iff in H. destruct H as (x & <- & Hx). right. exists x. auto.
+    - apply repeat_spec in H. left. exact H.
+  Qed.
+
+  Theorem slg_returns : (forall a it, exists r, cr a it = inl r) ->
+    forall c (a : alt A) (li : list str) (D : Z), unit_on cr (al_items a) ->
+      (forall x it r, In x (al_items a) -> cr x it = inl r -> (Zpos (Qden (sr_grade r)) | D)%Z) ->
+      (0 < D)%Z -> (Z.of_nat (Nat.max (length (al_items a)) (length li)) * D < zmaxsize)%Z ->
+      (1 <= Nat.max (length (al_items a)) (length li))%nat ->
+      (c_length_error c = false \/ length (al_items a) = length li) ->
+      (c_missing_error c = false \/ Forall (fun it => is_blank it = false) li) ->
+      exists r, check_items cr solveZ c a li = inl r.
+  Proof.
+    intros T c a li D U HD D0 HB Hn HL HM.
+    destruct (slg_graded_or_solver A cr solveZ T c a li HL HM) as [K | [Ho K]]; [exact K|]. exfalso.
+    rewrite (slg_graded_otherwise A cr solveZ c a li HL HM) in K. unfold grade_list in K. rewrite Ho in K.
+    unfold optimal_order in K. set (n := Nat.max (length (al_items a)) (length li)) in *.
+    destruct (result_matrix cr (pad n (al_items a)) (pad n li)) as [mat|e] eqn:Hmat.
+    - destruct (solveZ (cost_matrix mat)) eqn:S; [discriminate|].
+      destruct (padded_shape A cr (al_items a) li n mat eq_refl Hmat) as [L F].
+      apply (solveZ_returns n (cost_matrix mat) D Hn); try assumption.
+      + unfold cost_matrix. rewrite map_length. exact L.
+      + unfold cost_matrix. apply Forall_forall. intros row Hrow. apply in_map_iff in Hrow. destruct Hrow as (r0 & <- & H0).
+        rewrite map_length. rewrite Forall_forall in F. apply F. exact H0.
+      + intros row q Hrow Hq. unfold cost_matrix in Hrow. apply in_map_iff in Hrow. destruct Hrow as (row0 & <- & Hrow0).
+        apply in_map_iff in Hq. destruct Hq as (r & <- & Hr).
+        destruct (matrix_entries_from _ _ mat row0 r Hmat Hrow0 Hr) as (oa & oi & Hoa & Hoi & E).
+        assert (G : 0 <= sr_grade r <= 1 /\ (Zpos (Qden (sr_grade r)) | D)%Z).
+        { unfold checker in E. destruct oa as [x|]; destruct oi as [it|];
+            try (inversion E; subst r; simpl; split; [lra | apply Z.divide_1_l]).
+          destruct (in_pad n (al_items a) (Some x) Hoa) as [N | (x' & Ex & Hx)]; [discriminate|]. inversion Ex; subst x'.
+          split; [apply (U x it r Hx E) | apply (HD x it r Hx E)]. }
+        destruct G as [G1 G2]. split; [lra|].
+        assert (Eden : Qden (1 - sr_grade r) = Qden (sr_grade r)) by (destruct (sr_grade r); reflexivity).
+        rewrite Eden. exact G2.
+    - destruct (mapM_inr _ _ e Hmat) as (oi & _ & Erow). destruct (mapM_inr _ _ e Erow) as (oa & _ & E).
+      destruct (chk_total A cr T (oa, oi)) as (r & Er). unfold chk in Er. simpl in Er. congruence.
+  Qed.
+End Returns.
